@@ -565,25 +565,29 @@ def _output_worker(payload):
             sched = [("open", 0), ("open", 1), ("idle",), ("call", auth_step), ("idle",)]
             for s in ("a1", "b1", "bl"):
                 sched += [("msg", 1, {"m": "EVENT", "e": s}), ("idle",)]
+            # the publisher (authenticated, whitelisted) subscribes too, and first: the validator's answer depends on who is
+            # being served, so every delivery is judged for the connection it goes to
+            sched += [("msg", 1, {"m": "REQ", "sid": "s2", "fs": [{"kinds": [1, 10002]}]}), ("idle",)]
             sched += [("msg", 0, {"m": "REQ", "sid": "s1", "fs": [{"kinds": [1, 10002]}]}), ("idle",)]
             for s in ("a2", "b2", "bl2"):
                 sched += [("msg", 1, {"m": "EVENT", "e": s}), ("idle",)]
             try:
-                log, info, errs = await relaydrv.run_connections(st, uni, 2, sched, {"s1": "sub1"})
+                log, info, errs = await relaydrv.run_connections(st, uni, 2, sched, {"s1": "sub1", "s2": "sub2"})
             finally:
                 await storedrv.close_storage(st)
-        lines = []
+        lines = [{"a": "Auth", "c": "c2", "p": abstract(dict(VALID, signer="A", chals=["c2"])), "ok": True}]
         if reader_auth:
             lines.append({"a": "Auth", "c": "c1", "p": abstract(dict(VALID, signer=reader_auth)), "ok": True})
-        eose = False
+        eose = {0: False, 1: False}
         for ln in log:
-            if ln["a"] == "Send" and ln["c"] == 0:
+            if ln["a"] == "Send" and ln["c"] in (0, 1):
                 f = ln["f"]
                 if f["t"] == "EOSE":
-                    eose = True
+                    eose[ln["c"]] = True
                 elif f["t"] == "EVENT":
                     ab = uni.abs[f["e"]]
-                    lines.append({"a": "Deliver", "c": "c1", "pk": ab["pk"], "kind": ab["kind"], "how": "live" if eose else "stored", "_e": f["e"]})
+                    lines.append({"a": "Deliver", "c": "c%d" % (ln["c"] + 1), "pk": ab["pk"], "kind": ab["kind"],
+                                  "how": "live" if eose[ln["c"]] else "stored", "_e": f["e"]})
         return lines
 
     async def main():
